@@ -423,6 +423,10 @@ func vf10Deadlines(n *wire.Net, s wire.Side, setupOK bool) string {
 			first = &dls[i]
 		}
 		last = &dls[i]
+		// "armed when they start": input that trickles in does not push the timeout back
+		if !first.T.IsZero() && !dls[i].T.IsZero() && dls[i].T.After(first.T.Add(2*time.Millisecond)) {
+			return fmt.Sprintf("VIOL[c10-obfs3-deadline-slides]: the handshake started under the read deadline %s; after %d reads the deadline was moved to %s (%v later): every piece of input pushes the timeout back", first.T.Format("15:04:05.000000"), dls[i].ReadsBefore, dls[i].T.Format("15:04:05.000000"), dls[i].T.Sub(first.T))
+		}
 	}
 	if n.Reads(s) > 0 {
 		if first == nil || first.T.IsZero() || first.ReadsBefore != 0 || !first.T.After(first.At) {
@@ -754,7 +758,7 @@ func vf10Normalize(cs *vf10Case) {
 func TestVerifC10Obfs3Bytes(t *testing.T) {
 	vf10Anchor()
 	c := ev.For(vf10Prop())
-	c.Rule("obfs3-bytes: real client (Dial) or server (WrapConn) against a scripted peer over the gated wire: input shapes random / shorter than a key / key (own, other representative, 0, 1, p, p-1, all-ff) + padding + magic at offsets 0, 1, 4097, 8193, 8194, uniform + data up to 1 MiB / magic after 8195.. / no magic with 0..1 MiB of garbage (8225, 8226, 8227) / partial magic / magic with a flipped bit / the real side's own magic reflected / two magics / zeros / valid exchange cut anywhere; the peer knows the secret whenever it sent a key it owns or a degenerate value; chunk plans, wire read caps, real-side padding steered; application writes; ending EOF / read error at an offset / fired handshake deadline / write error at an offset of the real side's output; oracle: no panic, every call returns once the ending is delivered (quiescence; wedge only after 20 s + 60 s), rxBuf <= 24678 bytes (capacity <= 65536) at every quiescent point, handshake read requests <= 16452 bytes, injected write errors are returned, deadline armed before the first Read and cleared after success, fired deadline ends the handshake with an error; non-trivial = input got past the key exchange (Dial / WrapConn succeeded, the magic scan ran); fingerprint = case structure")
+	c.Rule("obfs3-bytes: real client (Dial) or server (WrapConn) against a scripted peer over the gated wire: input shapes random / shorter than a key / key (own, other representative, 0, 1, p, p-1, all-ff) + padding + magic at offsets 0, 1, 4097, 8193, 8194, uniform + data up to 1 MiB / magic after 8195.. / no magic with 0..1 MiB of garbage (8225, 8226, 8227) / partial magic / magic with a flipped bit / the real side's own magic reflected / two magics / zeros / valid exchange cut anywhere; the peer knows the secret whenever it sent a key it owns or a degenerate value; chunk plans, wire read caps, real-side padding steered; application writes; ending EOF / read error at an offset / fired handshake deadline / write error at an offset of the real side's output; oracle: no panic, every call returns once the ending is delivered (quiescence; wedge only after 20 s + 60 s), rxBuf <= 24678 bytes (capacity <= 65536) at every quiescent point, handshake read requests <= 16452 bytes, injected write errors are returned, deadline armed before the first Read, never moved later while the handshake runs, and cleared after success, fired deadline ends the handshake with an error; non-trivial = input got past the key exchange (Dial / WrapConn succeeded, the magic scan ran); fingerprint = case structure")
 	c.Assume("the harness wire delivers every event that could wake the endpoint; quiescence = goroutine finished or parked in the wire's Read")
 	c.Floor("obfs3-bytes-past-key-exchange/obfs3-bytes", 0.40)
 	// (floors on behaviour - application bytes delivered; Read returned an error
